@@ -82,6 +82,10 @@ func (t *Table) AddColumn(col Column) {
 		}
 
 		t.Columns[id].CurrentAttr.MysqlType = col.CurrentAttr.MysqlType
+		if col.CurrentAttr.PgType != nil {
+			// Postgres ALTER COLUMN ... TYPE: the altered column carries the new type only
+			t.Columns[id].CurrentAttr.PgType = col.CurrentAttr.PgType
+		}
 		return
 	}
 
